@@ -15,6 +15,7 @@ import (
 	"github.com/hashicorp/hcl-lang/schema"
 	"github.com/hashicorp/hcl/v2"
 	"github.com/hashicorp/hcl/v2/ext/typeexpr"
+	"github.com/hashicorp/hcl/v2/hclsyntax"
 	"github.com/zclconf/go-cty/cty"
 )
 
@@ -273,10 +274,15 @@ func decodeTargetableBody(body hcl.Body, parentBlock *ast.BlockContent, tt *sche
 	target := reference.Target{
 		Addr:        tt.Address.Copy(),
 		ScopeId:     tt.ScopeId,
-		RangePtr:    parentBlock.Range.Ptr(),
-		DefRangePtr: parentBlock.DefRange.Ptr(),
 		Type:        tt.AsType,
 		Description: tt.Description,
+	}
+	if parentBlock != nil {
+		target.RangePtr = parentBlock.Range.Ptr()
+		target.DefRangePtr = parentBlock.DefRange.Ptr()
+	} else if hclBody, ok := body.(*hclsyntax.Body); ok {
+		// a targetable root body is not enclosed by any block
+		target.RangePtr = hclBody.SrcRange.Ptr()
 	}
 
 	if tt.NestedTargetables != nil {
